@@ -10,6 +10,7 @@
 #include "dt-strpf.h"
 #include "scale.h"
 #include "tzob.h"
+#include "event.h"
 
 typedef double ev_tstamp;
 #define UNLIKELY(x) __builtin_expect(!!(x), 0)
@@ -43,12 +44,35 @@ static echs_instant_t rdi(const char *s)
 
 int main(void)
 {
-	static char line[65536];
+	static char line[1 << 20];
 	setvbuf(stdout, NULL, _IOLBF, 0);
 	while (fgets(line, sizeof(line), stdin)) {
 		char *a[16];
 		int n = 0;
 		line[strcspn(line, "\r\n")] = 0;
+		if (!strncmp(line, "q.isort", 7) || !strncmp(line, "q.esort", 7)) {
+			/* q.isort H…  /  q.esort H… : sort instants / events tagged with their input index */
+			int ev = line[2] == 'e';
+			size_t cnt = 0, cap = 16;
+			echs_instant_t *in = malloc(cap * sizeof(*in));
+			for (char *p = strtok(line + 7, " "); p; p = strtok(NULL, " ")) {
+				if (cnt == cap) in = realloc(in, (cap *= 2) * sizeof(*in));
+				in[cnt++].u = strtoull(p, NULL, 16);
+			}
+			if (!ev) {
+				echs_instant_sort(in, cnt);
+				for (size_t i = 0; i < cnt; i++) printf("%s%016" PRIx64, i ? " " : "", in[i].u);
+			} else {
+				echs_event_t *e = calloc(cnt + 1, sizeof(*e));
+				for (size_t i = 0; i < cnt; i++) e[i].from = in[i], e[i].oid = (echs_oid_t)i;
+				echs_event_sort(e, cnt);
+				for (size_t i = 0; i < cnt; i++) printf("%s%016" PRIx64 ":%zu", i ? " " : "", e[i].from.u, (size_t)e[i].oid);
+				free(e);
+			}
+			putchar('\n');
+			free(in);
+			continue;
+		}
 		/* split on single spaces, at most 16 fields; the last one takes the rest */
 		for (char *p = line; n < 16;) {
 			a[n++] = p;
